@@ -109,7 +109,7 @@ fn real_main(args: &[String], scratch: &str) -> i32 {
                 "C05sched" | "C14sched" | "C14lattice" | "C07sched" => conc::replay(&mut ctx, &args[2..]),
                 "C10s2m" | "C10m2s" | "C10s2m-free" | "C10m2s-free" | "C10big" => conc::replay_min(&mut ctx, &args[2..]),
                 "C05cfg" => conc::replay_c05cfg(&mut ctx, &args[2..]),
-                "C06" | "C06long" | "C06size" | "C07" | "C08" | "C08one" | "C08bin" | "C08direct" => files::replay(&mut ctx, &args[2..]),
+                "C06" | "C06long" | "C06size" | "C06header" | "C07" | "C08" | "C08one" | "C08bin" | "C08direct" => files::replay(&mut ctx, &args[2..]),
                 other => {
                     eprintln!("unknown case kind {}", other);
                     return 2;
